@@ -226,6 +226,27 @@ where
             // Swap the Delete and Insert
             (DiffTag::Insert, DiffTag::Delete) | (DiffTag::Delete, DiffTag::Insert) => {
                 ops.swap(pointer - 1, pointer);
+                #[cfg(similar_verif)]
+                {
+                    // verification hook: recompute the indices the two swapped ops carry for the other side
+                    match (ops[pointer - 1], ops[pointer]) {
+                        (
+                            DiffOp::Insert { new_index: ni, new_len: nl, .. },
+                            DiffOp::Delete { old_index: oi, old_len: ol, .. },
+                        ) => {
+                            ops[pointer - 1] = DiffOp::Insert { old_index: oi, new_index: ni, new_len: nl };
+                            ops[pointer] = DiffOp::Delete { old_index: oi, old_len: ol, new_index: ni + nl };
+                        }
+                        (
+                            DiffOp::Delete { old_index: oi, old_len: ol, .. },
+                            DiffOp::Insert { new_index: ni, new_len: nl, .. },
+                        ) => {
+                            ops[pointer - 1] = DiffOp::Delete { old_index: oi, old_len: ol, new_index: ni };
+                            ops[pointer] = DiffOp::Insert { old_index: oi + ol, new_index: ni, new_len: nl };
+                        }
+                        _ => {}
+                    }
+                }
                 pointer -= 1;
             }
             // Merge the two ranges
@@ -333,6 +354,27 @@ where
             // Swap the Delete and Insert
             (DiffTag::Insert, DiffTag::Delete) | (DiffTag::Delete, DiffTag::Insert) => {
                 ops.swap(pointer, pointer + 1);
+                #[cfg(similar_verif)]
+                {
+                    // verification hook: recompute the indices the two swapped ops carry for the other side
+                    match (ops[pointer], ops[pointer + 1]) {
+                        (
+                            DiffOp::Insert { new_index: ni, new_len: nl, .. },
+                            DiffOp::Delete { old_index: oi, old_len: ol, .. },
+                        ) => {
+                            ops[pointer] = DiffOp::Insert { old_index: oi, new_index: ni, new_len: nl };
+                            ops[pointer + 1] = DiffOp::Delete { old_index: oi, old_len: ol, new_index: ni + nl };
+                        }
+                        (
+                            DiffOp::Delete { old_index: oi, old_len: ol, .. },
+                            DiffOp::Insert { new_index: ni, new_len: nl, .. },
+                        ) => {
+                            ops[pointer] = DiffOp::Delete { old_index: oi, old_len: ol, new_index: ni };
+                            ops[pointer + 1] = DiffOp::Insert { old_index: oi + ol, new_index: ni, new_len: nl };
+                        }
+                        _ => {}
+                    }
+                }
                 pointer += 1;
             }
             // Merge the two ranges
